@@ -179,7 +179,7 @@ def bursts(quick):
         b += ["burst login seq 60 1000 10 3000", "burst certgen seq 200 5000 20 2000", "burst login conc 4000 10000 100 0",
               "burst loginbasic conc 2000 1000 10 0", "burst checkauth conc 3000 100000 50 0", "burst certgen conc 1500 1000 10 0"]
     # the limiter as built by the real config loader from a generated config file; judged against the configured values
-    b = ["cfgburst login conc 90 2000 20 0"] + b + ["cfgburst checkauth seq 70 3000 37 0", "cfgburst loginbasic conc 64 500 5 0",
+    b = ["cfgburst login conc 90 2000 20 0", "burst routes conc 1400 1000 10 0"] + b + ["cfgburst checkauth seq 70 3000 37 0", "cfgburst loginbasic conc 64 500 5 0",
                                                      "cfgburst certgen conc 64 1000 99 0", "cfgburst login conc 48 - - 0"]
     if not quick:
         b += ["cfgburst login conc 400 1000 10 0", "cfgburst certgen seq 120 2500 11 2000", "cfgburst checkauth conc 600 10000 100 0",
@@ -293,11 +293,14 @@ def run(ctx):
             kv = dict(x.split("=", 1) for x in impl[i].split())
             lo = int(model[i].split("=")[1])
             burst_rows.append({"op": o, "impl": impl[i], "model_lower_bound": lo})
+            if f[1] == "routes":
+                lo = min(lo, 1)   # which of the registered handlers look at a password is not this check's business
             if int(kv["backend"]) < lo:
                 ctx.broken.append("burst %r: backend reached %s times, the limiter model admits at least %d" % (o, kv["backend"], lo))
             if int(kv["calls"]) != int(kv["backend"]):
                 ctx.broken.append("burst %r: %s backend calls for %s requests that reached it" % (o, kv["calls"], kv["backend"]))
-            jops.append("pw %s %s %s %s %s %s %s" % (f[4], f[5], f[3], kv["backend"], kv["r429"], kv["bad"], kv["elapsed_ns"]))
+            n_att = f[3] if f[1] != "routes" else str(int(f[3]) - int(kv.get("other", "0")))
+            jops.append("pw %s %s %s %s %s %s %s" % (f[4], f[5], n_att, kv["backend"], kv["r429"], kv["bad"], kv["elapsed_ns"]))
             jmeta.append(i)
         elif k == "cfgburst":
             if impl[i].startswith("err") or "=" not in impl[i]:
